@@ -190,7 +190,12 @@ func (p *Pool) Put(x any) {
 		return
 	}
 	if t := core.Cur(); t != nil {
-		core.RaceReleaseMerge(dataWord(x))
+		// The release edge is published only once the kernel has applied the Put
+		// (the task runs on, alone, until its next request). Releasing before
+		// the scheduling point would order everything this task did with the
+		// object before any Get another task is granted while this Put is still
+		// pending - and hide the race when one object sits in the pool twice.
 		t.PoolPut(p, "pool", x)
+		core.RaceReleaseMerge(dataWord(x))
 	}
 }
